@@ -278,8 +278,8 @@ class Ev:
             return "CALL %s(%s)%s -> %s @%s" % (self.a, ", ".join(fmt(x) for x in self.b), (" on " + fmt(self.c)) if self.c else "", fmt(self.extra.get("ret")) if self.extra else "", self.loc)
         if self.kind == "STORE":
             return "STORE %s := %s @%s" % (fmt(self.a), fmt(self.b), self.loc)
-        if self.kind == "VREAD":
-            return "VREAD %s @%s" % (fmt(self.a), self.loc)
+        if self.kind in ("VREAD", "MREAD"):
+            return "%s %s @%s" % (self.kind, fmt(self.a), self.loc)
         if self.kind == "RET":
             return "RET %s" % fmt(self.a)
         if self.kind == "DECL":
@@ -680,6 +680,13 @@ class Engine:
                 if self.is_rec(stt):
                     outs.append((s, lv))
                 else:
+                    if not stt.get("vol"):
+                        root = lv
+                        while isinstance(root, tuple) and root and root[0] in ("fld", "idx"):
+                            root = root[1]
+                        if isinstance(root, tuple) and root[:1] == ("deref",) and root[1] != ("this",):
+                            # non-volatile load through a pointer: recorded so that rules can see host-typed reads of sandbox memory
+                            self.emit(s, "MREAD", lv, loc=e.get("loc"), extra={"t": stt})
                     outs.append((s, self.load(s, lv, vol=bool(stt.get("vol")), loc=e.get("loc"), ty=stt)))
             return outs
         if ck in ("ArrayToPointerDecay",):
